@@ -18,6 +18,7 @@ import (
 	"github.com/gopcua/opcua/uasc"
 
 	"verifharness/internal/rng"
+	"verifharness/internal/sched"
 )
 
 const (
@@ -220,6 +221,9 @@ type scen18 struct {
 	start   uint32
 	name    string
 	sent    []map[string]interface{}
+
+	oracleOnly bool
+	collision  map[string]interface{}
 }
 
 func (s *scen18) newCaller(want int, timeout time.Duration) *Caller {
@@ -370,10 +374,21 @@ func (s *scen18) emitCase(label string) {
 	copy(ev, s.events)
 	emit(map[string]interface{}{"kind": "case", "prop": "C18", "scenario": s.name, "label": label, "start": s.start,
 		"events": ev, "outcomes": outs, "handlers": hs, "probe": sortedU32(s.probe), "sent": s.sent,
-		"rcv_locked": s.p.V.SchedRcvLocked()})
+		"rcv_locked": s.p.V.SchedRcvLocked(), "oracle_only": s.oracleOnly, "collision": s.collision})
 }
 
 func c18(seed uint64, n int) {
+	for _, w := range []string{"cancel-while-popped", "id-comes-round"} {
+		var err error
+		for attempt := 0; attempt < 3; attempt++ {
+			if err = c18forced(rng.New(seed*77+uint64(len(w))), "c18forced-"+w, w); err == nil {
+				break
+			}
+		}
+		if err != nil {
+			emit(map[string]interface{}{"kind": "error", "scenario": "c18forced-" + w, "err": err.Error()})
+		}
+	}
 	for i := 0; i < n; i++ {
 		r := rng.New(seed*1000003 + uint64(i))
 		name := fmt.Sprintf("c18-%d-%d", seed, i)
@@ -499,3 +514,108 @@ func c18one(r *rng.R, name string) error {
 }
 
 func nil2(ua.Response) error { return nil }
+
+// c18forced: two orderings that need control.
+//
+//	cancel-while-popped: the dispatcher holds A's response between popHandler and the delivery when A gives up; a
+//	  new request B is issued; then the dispatcher delivers. B must get ITS response, not A's late one.
+//	id-comes-round: the request id counter comes round to the id of a request that is still pending.
+func c18forced(r *rng.R, name, which string) error {
+	p, err := NewPair(PairOpts{Timeout: 10 * time.Second})
+	if err != nil {
+		return err
+	}
+	defer p.Close()
+	start := uint32(r.Intn(5000)) + 10
+	p.V.SetRequestID(start)
+	s := &scen18{p: p, r: r, idOf: map[int]uint32{}, probe: map[uint32]bool{}, start: start, name: name}
+	taken := map[int]bool{}
+	switch which {
+	case "cancel-while-popped":
+		ctl := sched.New()
+		uasc.VerifSetSchedHook(ctl.Hook)
+		defer uasc.VerifSetSchedHook(nil)
+		defer ctl.FreeAll()
+		a := s.newCaller(tyWrite, 10*time.Second)
+		if err := s.launch([]*Caller{a}); err != nil {
+			return err
+		}
+		ctl.Control("disp")
+		uid := s.uid
+		s.uid++
+		if err := p.Srv.Respond(s.idOf[a.Tid], mkResponse(tyWrite, s.idOf[a.Tid], ua.StatusOK, fmt.Sprintf("%d:%d", uid, a.Tid))); err != nil {
+			return err
+		}
+		s.sent = append(s.sent, map[string]interface{}{"uid": uid, "kind": "ok", "id": s.idOf[a.Tid], "for": a.Tid})
+		if ctl.WaitParked("disp", "sc.disp.popped", 2*time.Second) == "" {
+			return fmt.Errorf("dispatcher did not reach sc.disp.popped")
+		}
+		s.events = append(s.events, Ev{"net", s.idOf[a.Tid], tyWrite, 0, a.Tid}, Ev{"pop"})
+		a.cancel()
+		select {
+		case <-a.done:
+		case <-time.After(2 * time.Second):
+			return fmt.Errorf("cancelled call did not return")
+		}
+		s.settle(taken) // records ["ctx", a]
+		b := s.newCaller(tyWrite, 10*time.Second)
+		if err := s.launch([]*Caller{b}); err != nil {
+			return err
+		}
+		ctl.Free("disp")
+		s.events = append(s.events, Ev{"lock"}, Ev{"deliver"}, Ev{"resume"})
+		time.Sleep(20 * time.Millisecond)
+		s.settle(taken)
+		s.emitCase("late-response-delivered")
+		if !b.finished() {
+			if err := s.frame("ok", s.idOf[b.Tid], b.Tid, tyWrite); err != nil {
+				return err
+			}
+			select {
+			case <-b.done:
+			case <-time.After(2 * time.Second):
+			}
+			s.settle(taken)
+		}
+		s.emitCase("end")
+	case "id-comes-round":
+		pend := s.newCaller(tyWrite, 10*time.Second)
+		if err := s.launch([]*Caller{pend}); err != nil {
+			return err
+		}
+		x := s.idOf[pend.Tid]
+		p.V.SetRequestID(x - 1) // as after a full cycle of the 32-bit counter
+		q := s.newCaller(tyWrite, 2*time.Second)
+		q.start(p.SC, q.Tid, 0, nil, nil)
+		var got *SrvReq
+		for i := 0; i < 20 && !q.finished() && got == nil; i++ {
+			if rq, ok := p.Srv.Next(25 * time.Millisecond); ok && rq.Err == nil {
+				got = &rq
+			}
+		}
+		if got != nil { // the colliding request went out after all: answer it
+			uid := s.uid
+			s.uid++
+			p.Srv.Respond(got.ReqID, mkResponse(tyWrite, got.Handle, ua.StatusOK, fmt.Sprintf("%d:%d", uid, q.Tid)))
+			s.sent = append(s.sent, map[string]interface{}{"uid": uid, "kind": "ok", "id": got.ReqID, "for": q.Tid})
+			time.Sleep(30 * time.Millisecond)
+		}
+		select {
+		case <-q.done:
+		case <-time.After(300 * time.Millisecond):
+		}
+		s.settle(taken)
+		q.mu.Lock()
+		qid := q.ID
+		q.mu.Unlock()
+		s.idOf[q.Tid] = qid
+		s.probe[qid] = true
+		s.oracleOnly = true // the model has no event that sets the counter back
+		s.collision = map[string]interface{}{"pending_id": x, "pending_tid": pend.Tid, "new_tid": q.Tid, "new_request_reached_server": got != nil}
+		s.emitCase("collision")
+	}
+	for _, c := range s.callers {
+		c.cancel()
+	}
+	return nil
+}
